@@ -26,6 +26,7 @@ package eio
 
 // C13 / C14: configuration defaults and what the handshake announces.
 //@ func newServer
+//@   pure
 //@   requires config != nil
 //@   ensures result != nil
 //@   ensures config.DisableMaxBufferSize ==> result.maxBufferSize == 0 [C13.cfg.disable]
@@ -51,10 +52,12 @@ package eio
 //@   ensures forall k string :: k != sid ==> (k in s.sockets) == old(k in s.sockets) && s.sockets[k] == old(s.sockets[k]) [C17.store.frame]
 
 //@ func (*socketStore).get
+//@   pure
 //@   requires s.sockets != nil
 //@   ensures ok == (sid in s.sockets) && (ok ==> socket == s.sockets[sid]) [C17.store.get]
 
 //@ func (*socketStore).exists
+//@   pure
 //@   requires s.sockets != nil
 //@   ensures result == (sid in s.sockets) [C17.store.exists]
 
@@ -159,6 +162,7 @@ package eio
 //@   loop 0 invariant tries == i && i <= 10
 
 //@ func GenerateBase64ID
+//@   modifies *
 //@   ensures size <= 4 ==> result1 != nil [C17.id.size]
 
 // Close: no new session is admitted before the existing ones are closed (closed first, then closeAll).
